@@ -14,7 +14,11 @@ Every theorem quantifies over **every** message list (any octets), **every** scr
 What the outcome script abstracts (trusted, not proved): a write whose outcome is `ok` puts the whole
 framed message on the wire; a write that returns an error has put no *complete* line on the wire (Go's
 `Write` reports an error for a partial write, and the sink counts only complete lines); `lost` covers
-a write the kernel accepted for a connection/port that is already dead. Kernel timing decides *which*
+a write the kernel accepted for a connection/port that is already dead. A write that is cut off
+half-way (large message, stalled sink, connection closed or reset while the producer is blocked in the
+write: event `s<k>` of the socket harness) is such a failed write — the part of the line already on the
+wire has no newline and dies with the connection, and the retry sends the whole message again, which
+is what `sendOne` does (it always frames the full `m`). Kernel timing decides *which*
 script occurs; the theorems hold for all of them.
 
 The tie to the source is (A) the obligations on `Vflow.Gen.ProducerFacts` at the end of this file
